@@ -8,7 +8,7 @@ use crate::{for_both, Ctx};
 use blsful::*;
 use serde_json::json;
 
-pub const RULE: &str = "keys = edge scalars E + random pool (12 quick / 40 thorough), both groups. Per key: proof_of_possession twice (determinism), verify against own key (library and reference PopVerify), byte equality with reference PopProve; every ORDERED pair of distinct keys in the pool: proof of i against key j must fail (library and reference); every negative question is asked three times in a row, directly after an accepted one (an acceptance on any attempt counts); perturbations of the proof point: +G, negation, doubling, P+pop(other), a plain signature (each scheme) over the public-key bytes, re-encoded (must still pass). History clusters (3 quick / 12 thorough per group, shared with C01/C03): prove and verify possession (own key, another key) next to signing and verifying under every scheme and both group assignments, every ordered pair (a,b) as a,b,b,a with the reference's answers. Distinct by (suite, kind, pk, proof); non-trivial = both points decode and the pairing equation decides.";
+pub const RULE: &str = "keys = edge scalars E + random pool (12 quick / 100 thorough), both groups. Per key: proof_of_possession twice (determinism), verify against own key (library and reference PopVerify), byte equality with reference PopProve; every ORDERED pair of distinct keys in the pool: proof of i against key j must fail (library and reference); every negative question is asked three times in a row, directly after an accepted one (an acceptance on any attempt counts); perturbations of the proof point: +G, negation, doubling, P+pop(other), a plain signature (each scheme) over the public-key bytes, re-encoded (must still pass). History clusters (3 quick / 48 thorough per group, shared with C01/C03): prove and verify possession (own key, another key) next to signing and verifying under every scheme and both group assignments, every ordered pair (a,b) as a,b,b,a with the reference's answers. Distinct by (suite, kind, pk, proof); non-trivial = both points decode and the pairing equation decides.";
 
 pub fn run(ctx: &mut Ctx) {
     for_both!(run_suite, ctx);
@@ -23,7 +23,7 @@ fn run_suite<C: Suite>(ctx: &mut Ctx) {
         .into_iter()
         .map(|(a, b)| (a.to_string(), b))
         .collect();
-    let extra = ctx.tier.pick(2, 30);
+    let extra = ctx.tier.pick(2, 90);
     for _ in 0..extra {
         pool.push(("random".into(), gen::random_scalar(&mut erng)));
     }
@@ -41,7 +41,7 @@ fn run_suite<C: Suite>(ctx: &mut Ctx) {
     }
     // history clusters: prove / verify possession next to signing and verifying under every
     // scheme and both group assignments, every ordered pair as a,b,b,a (shared with C01/C03)
-    for i in 0..ctx.tier.pick(3, 12) {
+    for i in 0..ctx.tier.pick(3, 48) {
         let gg = base + 5000 + i as u64;
         if !ctx.mine(gg) {
             continue;
